@@ -12,6 +12,7 @@ import DimModel.Lib.Join
 import DimModel.Lib.Transform
 import DimModel.Lib.Missing
 import DimModel.Lib.Dataset
+import DimModel.Lib.Interp
 open Lean
 namespace DimModel.Driver
 open DimModel.Codec
@@ -89,6 +90,9 @@ def transformOp (a : DimArray Cell) (req : Json) : P Json := do
   | "setna" => do
     let hits ← listOf nat (← fld req "hits")
     pure (Json.mkObj [("ok", encDimArray (Lib.setna (fun j => hits.contains (ravel a.vals.shape j)) Cell.nan a))])
+  | "interp" => do
+    pure (encExcept encDimArray (Lib.interpAxis (fun a b w => Cell.lin a b w) a (← dimKey (← fld req "axis"))
+      (← listOf label (← fld req "labels")) (← kind (fldD req "newkind" (Json.str "f"))) Cell.fill Cell.fill2))
   | f => throw s!"unknown transform {f}"
 
 def dsOp (j : Json) : P DS.Op := do
